@@ -382,6 +382,12 @@ fn array_hash(a: &mut Asm, r: &mut Rng, slot_const: Option<U256>) {
             a.op(op::POP);
             a.push(keccak_word(s));
         }
+        Some(s) if s == U256::ZERO && r.chance(1, 3) => {
+            // slot 0 hashed straight out of memory that was never written
+            // (it reads as zero), instead of being stored there first
+            a.op(op::POP);
+            a.push_u(0x20).op(op::PUSH0).op(op::SHA3);
+        }
         _ => {
             a.op(op::PUSH0).op(op::MSTORE);
             a.push_u(0x20).op(op::PUSH0).op(op::SHA3);
@@ -407,7 +413,12 @@ fn array_hash(a: &mut Asm, r: &mut Rng, slot_const: Option<U256>) {
 /// Uses the value on top of the stack in a way that tells the type checker
 /// something. Net -1.
 fn typed_use(a: &mut Asm, r: &mut Rng, scratch_slot: U256) {
-    match r.below(14) {
+    match r.below(16) {
+        14 | 15 => {
+            // parked in memory at a constant offset (it becomes a top-level
+            // value collected from the memory map)
+            a.push_u(0x80 + 0x20 * r.below(6) as u128).op(op::MSTORE);
+        }
         12 => {
             // bounds check against a constant
             a.push_u(1 + r.below(200) as u128).op(if r.chance(1, 2) { op::LT } else { op::GT }).op(op::POP);
@@ -487,7 +498,36 @@ fn typed_use(a: &mut Asm, r: &mut Rng, scratch_slot: U256) {
 /// One storage fragment on slot `s`; stack-neutral.
 fn storage_fragment(a: &mut Asm, r: &mut Rng, s: U256, slots: &[U256]) {
     let other = *r.pick(slots);
-    match r.below(23) {
+    match r.below(25) {
+        23 => {
+            // the same small slot written through two different computed keys
+            // (the VM does not fold storage keys) with different kinds of
+            // value, then read through the literal key
+            let k = 2 + r.below(5) as u128;
+            let x = 1 + r.below(k as u64 - 1) as u128;
+            typed_value(a, r);
+            a.push_u(x).push_u(k - x).op(op::ADD).op(op::SSTORE);
+            typed_value(a, r);
+            a.push_u(1).push_u(k + 1).op(op::SUB).op(op::SSTORE);
+            a.push_u(k).op(op::SLOAD);
+            typed_use(a, r, other);
+        }
+        24 => {
+            // a hash over an empty, odd-sized or multi-word region used as
+            // the base of a storage key
+            let size = *r.pick(&[0u128, 0, 1, 31, 33, 64, 96]);
+            a.push_u(size).push_u(*r.pick(&[0u128, 0, 0x20, 0x1f])).op(op::SHA3);
+            if r.chance(2, 3) {
+                a.push_u(r.below(3) as u128).op(op::ADD);
+            }
+            if r.chance(1, 2) {
+                a.op(op::SLOAD);
+                typed_use(a, r, other);
+            } else {
+                typed_value(a, r);
+                a.swap(1).op(op::SSTORE);
+            }
+        }
         20 => {
             // proxy-slot idiom, ABI-encoded: keccak(abi.encode("text")) with
             // the pointer word, a length word (right, zero or wrong) and data
@@ -831,9 +871,20 @@ pub fn gen_cfg(r: &mut Rng) -> Vec<u8> {
             if r.chance(1, 2) {
                 a.push_u(4).op(op::CALLDATALOAD).jumpi_to(u);
             }
+            let inner = a.new_label();
+            let with_inner = r.chance(1, 2);
+            if with_inner {
+                // a destination in the middle of the loop body, first reached
+                // by a fork from outside the loop and then by falling through
+                a.push_u(68).op(op::CALLDATALOAD).jumpi_to(inner);
+            }
             a.place(t);
             if r.chance(1, 2) {
                 a.op(op::CALLER).push_u(r.below(3) as u128).op(op::SSTORE);
+            }
+            if with_inner {
+                a.place(inner);
+                a.op(op::TIMESTAMP).op(op::POP);
             }
             let back = 1 + r.usize_below(3);
             for i in 0..back {
@@ -1178,6 +1229,15 @@ pub fn gen_const_use(r: &mut Rng) -> Vec<u8> {
 
 pub fn gen_copy(r: &mut Rng) -> Vec<u8> {
     let mut a = Asm::new();
+    if r.chance(1, 6) {
+        // many ordinary execution errors recorded before the copies: each
+        // conditional jump to a non-destination leaves an error behind while
+        // the thread carries on
+        let bad = 100 + r.usize_below(80);
+        for _ in 0..bad {
+            a.op(op::PUSH0).op(op::PUSH0).op(op::JUMPI);
+        }
+    }
     let n = 1 + r.usize_below(4);
     for _ in 0..n {
         let size = 32 * r.range(1, 40) as u128 + if r.chance(1, 4) { r.below(32) as u128 } else { 0 };
@@ -1332,6 +1392,16 @@ pub fn gen_corpus(r: &mut Rng, corpus: &Corpus, max_len: usize) -> Vec<u8> {
         code.push(op::STOP);
     }
     code
+}
+
+/// Cuts `code` right after its last JUMPDEST instruction, so that the program
+/// ends on a jump destination (a byte sequence may end anywhere).
+pub fn end_on_last_jumpdest(code: &mut Vec<u8>) {
+    if let Some(last) = crate::asm::jumpdest_offsets(code).last().copied() {
+        if last > 0 {
+            code.truncate(last + 1);
+        }
+    }
 }
 
 // ---------------------------------------------------------------------------
